@@ -185,6 +185,15 @@ class FormulaTransformer(m.MatcherDecoratableTransformer):
                 raise RuntimeError(f"scope not found for {n.value}")
             scope = self.node_to_scope.get(n, None)
 
+        # The target of a comprehension is local to it. An inlined
+        # comprehension (PEP 709) has no table of its own, and the enclosing
+        # table lists the name as global if it is also used as one there.
+        s = scope
+        while isinstance(s, ComprehensionScope):
+            if any(a.name == node.value for a in s.assignments):
+                return False
+            s = s.parent
+
         i = next(i for i, v in enumerate(self.scopes) if scope == v)
 
         n_to_s = self.name_to_symbol[i]
